@@ -300,7 +300,20 @@ class Interp:
     # --------------------------------------------------------- statements
     def block(self, stmts, env, mod):
         for s in stmts:
-            self.stmt(s, env, mod)
+            try:
+                self.stmt(s, env, mod)
+            except (Unsupported, _Return, _Break, _Continue):
+                raise
+            except RecursionError:
+                raise Unsupported('recursion too deep for the interpreter')
+            except Exception as ex:
+                if type(ex).__name__ == 'AnalysisError':
+                    raise
+                # an operation of the evaluated code raised (a % with too few arguments, a missing key ...): so would the real code
+                r = Raised('evaluated code raises %s: %s' % (type(ex).__name__, ex))
+                r.excname = type(ex).__name__
+                r.pyexc = ex
+                raise r from None
 
     def stmt(self, s, env, mod):
         self.steps += 1
